@@ -75,6 +75,20 @@ REG = {
     text="Every interleaving of the two processes is explored for every scenario of <= 4 callback events, three entry kinds and both consumer policies; "
          "recorded receive sequences of the real adapter must be behaviours of the specification (producer steps are silent).",
     note="What happens to the producer after a consumer that stops at the first error, and a draining consumer of ParseFile on an unreadable path, are outside the statement and not judged."),
+ "C06": dict(
+    level="model_checking", design="5/C06",
+    technique="TLA+ spec Walk.tla (instants, zone offsets, Lineage override, keywords against --today, summary's local-day interval) checked exhaustively by TLC; every terminal state replayed on 7 period-aware commands in-process with time.Local set to the zone, a sample on the binary under TZ, plus comparison with the file that has the other days deleted",
+    text="SelectedExactly / SummarySelectsThatDay / FileOrderKept are invariants over every log of <= 4 headings in a 6-day window x every bound pair, "
+         "and over every bound spec (absent, date, today, yesterday, last7, last30) at global / sub-command / both positions x 5 zones, and summary under "
+         "53 zone offsets; the real commands must show exactly the predicted headings and print byte-identical output for the pruned file.",
+    note="Fixed-offset zones (no DST transition on the tested dates). Natural-language dates are excluded (they use the real clock). Quick tier replays a seeded 1-in-k selection of the positions family."),
+ "C16": dict(
+    level="model_checking", design="5/C16",
+    technique="TLA+ spec Options.tla (LoadConfigFile, Populate*) checked by TLC over the full product of sources; every state of the per-setting slices and a seeded sample of the product realised on the real binary in a scratch HOME under an unknown uid with distinguishable values at every level",
+    text="Precedence, ExplicitConfigLoadedOrError and NoDatabaseIsEmptyBook are invariants over {flag} x {env} x {config entry} x {default config present} x "
+         "{--config unset/existing/missing} x {HR_CONFIG unset/existing/missing} x --no-database; the binary's effective book, log, date format, "
+         "depth and current date are observed through stats, csv log and two depth probes.",
+    note="The product of all five settings is replayed by a seeded stride (the per-setting slices are replayed completely). Needs the right to run a child process under another uid (root in this sandbox)."),
 }
 
 
